@@ -382,6 +382,8 @@ static void test_gen(void)
 				int bd;
 				for (bd = 0; bd < nd; ++bd) {
 					if (!thorough && nd > 33 && bd > 2 && bd < nd - 3 && (bd % 16) != 0) continue;
+					/* thorough: every disk for nd <= 16, otherwise the first and last three, every 32nd and a seeded one per 32 */
+					if (thorough && nd > 16 && bd > 2 && bd < nd - 3 && (bd % 32) != 0 && (bd % 32) != (int)((nd * 7 + 3) % 32)) continue;
 					run_gen_case(&fm, gv, nd, 256 * 64, 1, bd, 0);
 				}
 			} else {
